@@ -33,7 +33,8 @@ def check_larger_than(
     """
     if not allow_none and value is None:
         raise ValueError(f"{name} cannot be None.")
-    if value is not None and value < min_value:
+    # `not >=` rather than `<`, such that NaN is rejected as well.
+    if value is not None and not value >= min_value:
         raise ValueError(f"{name} must be at least {min_value} ({name}={value}).")
     return value
 
@@ -66,7 +67,8 @@ def check_smaller_than(
     """
     if not allow_none and value is None:
         raise ValueError(f"{name} cannot be None.")
-    if value is not None and value > max_value:
+    # `not <=` rather than `>`, such that NaN is rejected as well.
+    if value is not None and not value <= max_value:
         raise ValueError(f"{name} must be no larger than {max_value} ({name}={value}).")
     return value
 
